@@ -2,7 +2,7 @@
 //! Real code: `RollingFileAppender` + `CompoundPolicy` with the real size / on-start-up / time
 //! triggers (clock hook) or a harness-defined scripted trigger, and the real delete / fixed-window
 //! rollers. This module is also the shared executor and generator for C06 and C17 (same case format).
-use crate::c04::{gen_bytes, random_sizes, read_from_other_thread, set_amplifier, RecSpec, Scratch, ScriptEncoder};
+use crate::c04::{gen_bytes, parse_fail_rec, random_sizes, read_from_other_thread, set_amplifier, RecSpec, Scratch, ScriptEncoder};
 use crate::proto::*;
 use crate::rng::Rng;
 use log4rs::append::rolling_file::policy::compound::roll::delete::DeleteRoller;
@@ -18,7 +18,7 @@ use log4rs::append::rolling_file::{LogFile, RollingFileAppender};
 use std::collections::VecDeque;
 use std::io::{Read, Write};
 use std::path::{Path, PathBuf};
-use std::sync::atomic::{AtomicI64, AtomicU64, Ordering};
+use std::sync::atomic::{AtomicBool, AtomicI64, AtomicU64, Ordering};
 use std::sync::{Arc, Barrier, Mutex};
 
 #[derive(Clone, Debug)]
@@ -238,6 +238,26 @@ impl Trigger for ScriptedTrigger {
     }
 }
 
+/// wraps the real roller: counts `Roll::roll` invocations (rotation requests) and, when armed,
+/// reports `Err` once after the real roller has done its work
+#[derive(Debug)]
+struct CountingRoller {
+    inner: Box<dyn Roll>,
+    calls: Arc<AtomicU64>,
+    late_fail: Arc<AtomicBool>,
+}
+
+impl Roll for CountingRoller {
+    fn roll(&self, file: &Path) -> anyhow::Result<()> {
+        self.calls.fetch_add(1, Ordering::SeqCst);
+        let r = self.inner.roll(file);
+        if r.is_ok() && self.late_fail.swap(false, Ordering::SeqCst) {
+            anyhow::bail!("roller reports a failure after doing its work");
+        }
+        r
+    }
+}
+
 /// wraps the real policy; records what the policy is shown against the true size on disk
 #[derive(Debug)]
 struct ProbePolicy {
@@ -257,7 +277,43 @@ impl Policy for ProbePolicy {
     }
 }
 
+/// The real roller prints to stdout when a compression step fails (`println!("err compressing…")`
+/// in fixed_window.rs); the harness's stdout is the observation stream, so while real code runs
+/// file descriptor 1 points to /dev/null. What the main loop has already handed to std's stdout is
+/// flushed to the real descriptor first, so nothing of the protocol is lost or reordered.
+struct StdoutGag {
+    saved: i32,
+}
+
+impl StdoutGag {
+    fn new() -> StdoutGag {
+        let _ = std::io::stdout().flush();
+        unsafe {
+            let saved = libc::dup(1);
+            let null = libc::open(b"/dev/null\0".as_ptr() as *const libc::c_char, libc::O_WRONLY);
+            if null >= 0 {
+                libc::dup2(null, 1);
+                libc::close(null);
+            }
+            StdoutGag { saved }
+        }
+    }
+}
+
+impl Drop for StdoutGag {
+    fn drop(&mut self) {
+        let _ = std::io::stdout().flush();
+        unsafe {
+            if self.saved >= 0 {
+                libc::dup2(self.saved, 1);
+                libc::close(self.saved);
+            }
+        }
+    }
+}
+
 pub struct Env {
+    _gag: StdoutGag,
     pub case: Case,
     pub scratch: Scratch,
     pub path: PathBuf,
@@ -266,6 +322,8 @@ pub struct Env {
     pub clock: Arc<AtomicI64>,
     fault_at: Arc<AtomicI64>,
     fault_ctr: Arc<AtomicU64>,
+    pub roll_calls: Arc<AtomicU64>,
+    pub late_fail: Arc<AtomicBool>,
 }
 
 impl Env {
@@ -302,6 +360,7 @@ impl Env {
             }
         })));
         Env {
+            _gag: StdoutGag::new(),
             case,
             scratch,
             path,
@@ -310,6 +369,8 @@ impl Env {
             clock,
             fault_at,
             fault_ctr,
+            roll_calls: Arc::new(AtomicU64::new(0)),
+            late_fail: Arc::new(AtomicBool::new(false)),
         }
     }
 
@@ -335,6 +396,8 @@ impl Env {
                 Box::new(FixedWindowRoller::builder().base(*base).build(&p, *count).unwrap())
             }
         };
+        let roller: Box<dyn Roll> =
+            Box::new(CountingRoller { inner: roller, calls: self.roll_calls.clone(), late_fail: self.late_fail.clone() });
         let policy = ProbePolicy { inner: CompoundPolicy::new(trigger, roller), probe: self.probe.clone() };
         RollingFileAppender::builder()
             .append(self.case.append)
@@ -361,7 +424,10 @@ impl Drop for Env {
 }
 
 pub enum OpSpec {
+    /// record, injected rotation-step fault, late roller error, encoder failure after n slices
     Append(RecSpec, Option<u64>),
+    AppendLate(RecSpec),
+    AppendEncFail(RecSpec, u64),
     Restart,
     Tick(i64),
 }
@@ -376,6 +442,13 @@ pub fn parse_op(s: &str) -> Option<OpSpec> {
     if let Some(rest) = s.strip_prefix('f') {
         let (k, r) = rest.split_once('!')?;
         return Some(OpSpec::Append(RecSpec::parse(r)?, Some(k.parse().ok()?)));
+    }
+    if let Some(r) = s.strip_prefix("g!") {
+        return Some(OpSpec::AppendLate(RecSpec::parse(r)?));
+    }
+    if s.starts_with('e') {
+        let (r, n) = parse_fail_rec(s)?;
+        return Some(OpSpec::AppendEncFail(r, n?));
     }
     Some(OpSpec::Append(RecSpec::parse(s)?, None))
 }
@@ -400,9 +473,10 @@ pub fn exec_seq(f: &[&str]) -> String {
     let r = guarded(std::panic::AssertUnwindSafe(|| {
         let mut out = vec![];
         let mut app = Some(env.build());
-        out.push(format!("-!-!{}", env.snapshot()));
+        out.push(format!("-!-!0!{}", env.snapshot()));
         for op in &ops {
             *env.probe.lock().unwrap() = None;
+            env.roll_calls.store(0, Ordering::SeqCst);
             let res = match op {
                 OpSpec::Restart => {
                     drop(app.take());
@@ -423,12 +497,30 @@ pub fn exec_seq(f: &[&str]) -> String {
                         "err"
                     }
                 }
+                OpSpec::AppendLate(r) => {
+                    env.late_fail.store(true, Ordering::SeqCst);
+                    let res = r.append_to(app.as_ref().unwrap());
+                    env.late_fail.store(false, Ordering::SeqCst);
+                    if res.is_ok() {
+                        "ok"
+                    } else {
+                        "err"
+                    }
+                }
+                OpSpec::AppendEncFail(r, n) => {
+                    let res = r.append_failing(app.as_ref().unwrap(), Some(*n));
+                    if res.is_ok() {
+                        "ok"
+                    } else {
+                        "err"
+                    }
+                }
             };
             let consult = match *env.probe.lock().unwrap() {
                 Some((a, b)) => format!("{}={}", a, b),
                 None => "-".to_owned(),
             };
-            out.push(format!("{}!{}!{}", res, consult, env.snapshot()));
+            out.push(format!("{}!{}!{}!{}", res, consult, env.roll_calls.load(Ordering::SeqCst), env.snapshot()));
         }
         drop(app);
         out.join(",")
@@ -485,11 +577,11 @@ pub fn exec_conc(f: &[&str]) -> String {
             .collect();
         let acks: Vec<String> = handles.into_iter().map(|h| enc_list(",", &h.join().unwrap())).collect();
         let _ = read_from_other_thread(&env.path);
-        format!("{}!{}", acks.join("|"), env.snapshot())
+        format!("{}!{}!{}", acks.join("|"), env.roll_calls.load(Ordering::SeqCst), env.snapshot())
     }));
     set_amplifier(0);
     drop(env);
-    r.unwrap_or_else(|_| "PANIC!~".to_owned())
+    r.unwrap_or_else(|_| "PANIC!0!~".to_owned())
 }
 
 pub fn exec(fields: &[&str]) -> String {
@@ -510,8 +602,8 @@ pub enum TrigChoice {
     Startup,
 }
 
-const LIMITS: &[u64] = &[0, 1, 7, 100, 1024, 1025];
-const MINS: &[u64] = &[0, 1, 5, 4096];
+const LIMITS: &[u64] = &[0, 1, 7, 100, 1024, 1025, (1 << 63) - 1, 1 << 63, (1 << 63) + 1, u64::MAX];
+const MINS: &[u64] = &[0, 1, 5, 4096, (1 << 63) - 1, 1 << 63, (1 << 63) + 1, u64::MAX];
 
 fn around(rng: &mut Rng, x: u64) -> u64 {
     match rng.below(5) {
@@ -599,6 +691,8 @@ pub fn gen_seq_case(rng: &mut Rng, thorough: bool, choice: TrigChoice) -> String
         TrigSpec::Startup(m) => *m,
         _ => *rng.pick(&[7u64, 100, 1024]),
     };
+    // thresholds in the upper half of the u64 range: sizes stay small, nothing may ever roll
+    let pivot = if pivot > 5000 { *rng.pick(&[0u64, 3, 40]) } else { pivot };
     let pre_active = match rng.below(4) {
         0 => None,
         _ => Some(around(rng, pivot).min(5000)),
@@ -634,6 +728,14 @@ pub fn gen_seq_case(rng: &mut Rng, thorough: bool, choice: TrigChoice) -> String
             let r = gen_record(rng, i as u64 + 1, pivot, &mut budget).render();
             if faults_ok && rng.chance(1, 10) {
                 ops.push(format!("f{}!{}", rng.below(4), r));
+            } else if rng.chance(1, 12) {
+                // the roller does its work and then reports Err (first op of C17 histories more often)
+                ops.push(format!("g!{}", r));
+            } else if choice == TrigChoice::Any && r.starts_with('b') && rng.chance(1, 10) {
+                let nchunks = r.split_once(':').map(|(_, b)| if b.is_empty() { 0 } else { b.split('+').count() }).unwrap_or(0);
+                ops.push(format!("e{}!{}", rng.range(0, nchunks as u64), r));
+            } else if choice == TrigChoice::Startup && i == 0 && rng.chance(1, 4) {
+                ops.push(format!("g!{}", r));
             } else {
                 ops.push(r);
             }
@@ -671,6 +773,7 @@ pub fn gen_conc_case(rng: &mut Rng, thorough: bool, choice: TrigChoice) -> Strin
         TrigSpec::Startup(m) => *m,
         _ => 20,
     };
+    let pivot = if pivot > 5000 { 30 } else { pivot };
     let case = Case {
         append: rng.chance(3, 4),
         pre_active: if rng.chance(1, 4) { None } else { Some(around(rng, pivot).min(5000)) },
